@@ -465,6 +465,12 @@ fn op_copy(cx: &mut Ctx, src: &[u8], pl: Place) {
                 } else if !cx.rd.untouched(n, pl.b, 0x77) {
                     cx.fail(c2, None, &cj, format!("{}: bytes outside the destination slice were written", name));
                 }
+                if which == 5 && n >= 16 {
+                    // window width copy_small uses in this tier for this length
+                    let maxw = if !cx.disable.contains("avx512") { 64 } else if !cx.disable.contains("avx2") { 32 } else if !cx.disable.contains("sse41") { 16 } else { 0 };
+                    let w = [64usize, 32, 16].into_iter().find(|&w| w <= maxw && w <= n).unwrap_or(0);
+                    if w > 0 { let got = sd.to_vec(); cx.coq(19, src, &[], w as u64, Some(bytes_i(&got)), &cj); }
+                }
             }
         }
     }
